@@ -174,21 +174,32 @@ class Merger:
                 # Short-circuit the deep merge if a different merge rule
                 # applies to this node.
                 node_coord = NodeCoords(val, rhs, key)
-                merge_mode = (
-                    self.config.hash_merge_mode(node_coord)
-                    if isinstance(val, CommentedMap)
-                    else self.config.set_merge_mode(node_coord)
-                    if isinstance(val, CommentedSet)
-                    else self.config.aoh_merge_mode(node_coord)
-                )
+                merge_mode: Any = None
+                if isinstance(val, CommentedMap):
+                    merge_mode = self.config.hash_merge_mode(node_coord)
+                elif isinstance(val, CommentedSet):
+                    merge_mode = self.config.set_merge_mode(node_coord)
+                elif isinstance(val, CommentedSeq):
+                    merge_mode = (
+                        self.config.aoh_merge_mode(node_coord)
+                        if len(val) > 0 and isinstance(val[0], CommentedMap)
+                        else self.config.array_merge_mode(node_coord))
+                else:
+                    # Only an explicit [rules] entry keeps a left-hand Scalar
+                    # pylint: disable=protected-access
+                    scalar_rule = self.config._get_rule_for(node_coord)
+                    if scalar_rule:
+                        merge_mode = HashMergeOpts.from_str(scalar_rule)
                 self.logger.debug("Merger::_merge_dicts:  Got merge mode, {}."
                                   .format(merge_mode))
                 if merge_mode in (
-                    HashMergeOpts.LEFT, AoHMergeOpts.LEFT, SetMergeOpts.LEFT
+                    HashMergeOpts.LEFT, AoHMergeOpts.LEFT, SetMergeOpts.LEFT,
+                    ArrayMergeOpts.LEFT
                 ):
                     continue
                 if merge_mode in (
-                    HashMergeOpts.RIGHT, AoHMergeOpts.RIGHT, SetMergeOpts.RIGHT
+                    HashMergeOpts.RIGHT, AoHMergeOpts.RIGHT, SetMergeOpts.RIGHT,
+                    ArrayMergeOpts.RIGHT
                 ):
                     self.logger.debug(
                         "Merger::_merge_dicts:  Overwriting key, {}, at path,"
